@@ -261,6 +261,23 @@ impl Monitor for C10 {
                 variants.push(("empty_arrays_only_named", bk, obs.ix.clone(), true));
             }
         }
+        // (d') merely named arrays whose address already holds lamports (somebody pre-paid the rent, or sent dust):
+        //      still system-owned and without data, so still "merely named"
+        {
+            let mut bk = obs.pre.clone();
+            let mut funded = 0;
+            for m in obs.ix.metas.iter().filter(|m| m.name.starts_with("tick_array_") || m.name.starts_with("remaining_")) {
+                let absent = bk.get(&m.key).map(|a| a.data.is_empty() && a.owner == solana_program::system_program::ID).unwrap_or(true);
+                if absent {
+                    bk.set(m.key, Acct { lamports: *crate::rnd::pick(&mut w.r, &[1u64, 890_880, 70_407_360]), data: vec![], owner: solana_program::system_program::ID, executable: false });
+                    funded += 1;
+                }
+            }
+            if funded > 0 {
+                acc.count("variants_with_named_arrays_prefunded");
+                variants.push(("named_arrays_hold_lamports", bk, obs.ix.clone(), true));
+            }
+        }
         // (e) transcode every supplied array to the other encoding
         {
             let mut bk = obs.pre.clone();
